@@ -506,6 +506,16 @@ def checkCanSetValue (db : Db) (now : Int) (m : Msg) (allowShell : Bool)
       | .ok true => .pass
       | .ok false => .noCapability cap
 
+/-- `Config.channel <#a,#b,…> <name> <value>`: for every listed channel, in order, `_setValue` =
+`checkCanSetValue` then `group.set`; the first refusal raises and ends the loop.  Returns the
+channels whose value was written and how the command ended. -/
+def setChannels (check : Str → CfgOut) : List Str → List Str × CfgOut
+  | [] => ([], .pass)
+  | ch :: rest =>
+    match check ch with
+    | .pass => ((ch :: (setChannels check rest).1), (setChannels check rest).2)
+    | o => ([], o)
+
 /-! ## 8. supybot.capabilities -/
 
 /-- `DefaultCapabilities.setValue(v, allowDefaultOwner)`: the new `CapabilitySet(v)`, to which
